@@ -104,6 +104,9 @@ def configs(tier, seed):
         sel = all2
         all3 = trees(3)
         sel = sel + rnd.sample(all3, 400)
+    # multi-step: the adjoint is taken, the data an operand refers to is updated in place, the adjoint is taken again
+    for w in ('comp', 'sum', 'lsc', 'rvec', 'comp-of-comp'):
+        out.append(('stale-adjoint/%s' % w, dict(kind='stale', recipe=w)))
     chunk = 4
     sel = list(dict.fromkeys(sel))
     for field in ('real', 'complex'):
@@ -185,7 +188,28 @@ def adjoint_identity(ctx, tag, A):
     ctx.eq('adjoint-in-place=out-of-place/' + tag, o, ref)
 
 
+def _stale(ctx, w):
+    sp = odl.cn(2)
+    m = ctx.element(sp, 'm')
+    M = ctx.array('M', (2, 2), 'complex128')
+    mult = odl.MultiplyOperator(m)
+    mat = odl.MatrixOperator(M, domain=sp, range=sp)
+    v = ctx.element(sp, 'v')
+    s_ = ctx.cplx('s')
+    A = {'comp': lambda: mat * mult, 'sum': lambda: mat + mult, 'lsc': lambda: s_ * (mult * mat),
+         'rvec': lambda: (mat * mult) * v, 'comp-of-comp': lambda: (mult * mat) * (mat * mult)}[w]()
+    adjoint_identity(ctx, 'before', A)
+    # in-place update of the element / array the leaves refer to (new arbitrary values)
+    m2 = ctx.element(sp, 'm2')
+    M2 = ctx.array('M2', (2, 2), 'complex128')
+    m.assign(m2)
+    M[...] = M2
+    adjoint_identity(ctx, 'after-in-place-update', A)
+
+
 def case(ctx, kind, recipe=None, field='real', space='plain', trees=None):
+    if kind == 'stale':
+        return _stale(ctx, recipe)
     if kind == 'recipe':
         r = reg.by_name(recipe)
         A = r.build(ctx)
